@@ -35,7 +35,7 @@ CONFIGS = {
     'A': (['--all-features'], '', 'all features'),
     'N': (['--no-default-features', '--features', 'experimental-api-5'], '-Cpanic=abort', 'no_std build (cfg redb_no_std, spin locks)'),
 }
-TIER_CONFIGS = {'quick': ['D'], 'thorough': ['D', 'R', 'A', 'N']}
+TIER_CONFIGS = {'quick': ['D', 'A'], 'thorough': ['D', 'R', 'A', 'N']}
 
 
 def sysroot():
